@@ -85,8 +85,12 @@ def run_case(case, seed):
             if var == 'hosvd':
                 mr = np.inf if case['mr'] == 'inf' else case['mr']
                 return tedmd.amuset_hosvd(x, xa, ya, basis, threshold=case['thr'], max_rank=mr, ef_tf=bool(case['fl'][0]), st_tf=bool(case['fl'][1]))
-            return tedmd.amuset_hocur(x, xa, ya, basis, max_rank=1000, multiplier=3)
+            return tedmd.amuset_hocur(x, xa, ya, basis, max_rank=HOC['ranks'], multiplier=3)
 
+    HOC = {'ranks': 1000}
+    if var == 'hocur' and len(iset) == 1:
+        HOC['ranks'] = [1] + [1000] * len(basis) + [1]          # per-bond list (an input: must come back unchanged)
+    ranks_given = list(HOC['ranks']) if isinstance(HOC['ranks'], list) else HOC['ranks']
     batched = len(iset) > 1
     with r.op(key + ':call'):
         out = call(xi if batched else xi[0], yi if batched else yi[0])
@@ -105,6 +109,9 @@ def run_case(case, seed):
         r.true(key + ':returned-objects-distinct', len({id(o) for o in objs}) == len(objs), 'returned tensor trains are the same Python object')
         if any(meta_problem(o) is not None for o in etl):
             return r
+        if var == 'hosvd' and case['mr'] != 'inf':
+            for o in etl:
+                r.true(key + ':rank-cap', all(rr <= case['mr'] for rr in o.ranks[1:-1]), 'eigentensor ranks %s exceed max_rank %s (threshold %g)' % (o.ranks, case['mr'], case['thr']))
         exact = (var == 'hosvd' and case['thr'] == 1e-12 and case['mr'] == 'inf') or var == 'hocur'
         for kpos in range(len(iset)):
             lam = np.asarray(evl[kpos]); T = etl[kpos]
@@ -149,4 +156,5 @@ def run_case(case, seed):
                         res = np.linalg.norm(Kt @ v - lam[j] * v) / max(1e-300, np.linalg.norm(v))
                         r.true(key + ':eigen-equation', res <= 1e-7 * max(1.0, sv[0] / sv[k - 1]), 'pair %d residual %.3e' % (j, res))
     r.true(key + ':data-unchanged', np.array_equal(x, x0))
+    r.true(key + ':max_rank-argument-unchanged', HOC['ranks'] == ranks_given, 'max_rank list modified: %s -> %s' % (ranks_given, HOC['ranks']))
     return r
